@@ -4,6 +4,8 @@ import (
 	"fmt"
 	"runtime/debug"
 	"sync"
+	"sync/atomic"
+	"time"
 )
 
 // ---- operations sent from tasks to the scheduler ---------------------------
@@ -26,9 +28,10 @@ const (
 	opHandler // yielding: reply = Handler(...)
 	opHandlerNY
 	opFatal // misuse of a sync primitive that the real runtime would `fatal`
+	opStuck // from the monitor: the running task is blocked in a primitive the simulator does not control
 )
 
-var opNames = [...]string{"yield", "lock", "unlock", "rlock", "runlock", "wgadd", "wgwait", "spawn", "exit", "crash", "event", "gate", "open", "choice", "handler", "handlerNY", "fatal"}
+var opNames = [...]string{"yield", "lock", "unlock", "rlock", "runlock", "wgadd", "wgwait", "spawn", "exit", "crash", "event", "gate", "open", "choice", "handler", "handlerNY", "fatal", "stuck"}
 
 type msg struct {
 	t          int32
@@ -99,6 +102,7 @@ const (
 	waitWg
 	waitGate
 	waitExited
+	waitExternal // blocked in a channel operation, sleep, ... that was not instrumented (only code that is not gengine's does that)
 )
 
 type taskState struct {
@@ -145,6 +149,7 @@ type Stats struct {
 	MaxLive      int
 	StarvedSteps int64
 	ForcedFair   int64 // decisions taken by the bounded-fairness rule
+	ExternalBlocks int64 // times the running task was found blocked outside the simulator
 }
 
 // Run is one simulated execution.
@@ -169,6 +174,13 @@ type Run struct {
 	cur        int32
 	lastProg   int64
 	starveLeft int
+	running    bool // some task holds the processor
+	Unstable   bool // a task blocked outside the simulator: the execution is not exactly repeatable
+	stepsA     int64 // atomic mirror of St.Steps for the monitor
+	curA       int32 // atomic mirror of cur (-1: idle)
+	goids      [MaxTasks]int64
+	stopMon    chan struct{}
+	unstableA  int32
 
 	// hooks, all run on the scheduler goroutine
 	OnEvent   func(r *Run, e *Event)
@@ -226,9 +238,7 @@ func Gen() uint32 {
 //
 //go:norace
 func NewObj() int64 {
-	r := curRun
-	r.nextObj++
-	return r.nextObj
+	return atomic.AddInt64(&curRun.nextObj, 1)
 }
 
 // ---- wake-channel pool -------------------------------------------------------
@@ -302,9 +312,12 @@ func (r *Run) Execute(root func()) {
 	r.tasks = append(r.tasks, taskState{parent: -1})
 	setCur(r, -1)
 	r.alive.Add(1)
+	r.stopMon = make(chan struct{})
 	go r.taskMain(0, root)
 	go r.loop()
+	go r.monitor()
 	<-r.done
+	close(r.stopMon)
 	setCur(nil, -1)
 	pOn = false
 	r.St.MapRanges, r.St.MapShuffles = r.tsMapRanges, r.tsMapShuffles
@@ -316,6 +329,7 @@ func (r *Run) Execute(root func()) {
 
 func (r *Run) taskMain(id int32, f func()) {
 	defer r.alive.Done()
+	atomic.StoreInt64(&r.goids[id], goid())
 	raceDisable()
 	<-r.wake[id]
 	raceEnable()
@@ -348,6 +362,11 @@ func sendNoReply(r *Run, id int32, op int32) {
 //go:norace
 func do(op int32, a, b, c, d int64) int64 {
 	r, t := curRun, curTask
+	if atomic.LoadInt32(&r.unstableA) != 0 {
+		// a task that was blocked outside the simulator may run in parallel with the task that holds
+		// the processor: the global "current task" word is not about the caller then
+		t = r.taskOfGoroutine(goid(), t)
+	}
 	raceDisable()
 	r.in <- msg{t, op, a, b, c, d}
 	v := <-r.wake[t]
@@ -377,9 +396,7 @@ func GoTag(tag int64, f func()) {
 //go:norace
 func newTaskID() (*Run, int32) {
 	r := curRun
-	id := r.nextTask
-	r.nextTask++
-	return r, id
+	return r, atomic.AddInt32(&r.nextTask, 1) - 1
 }
 
 // ---- the scheduler goroutine ---------------------------------------------------
@@ -389,7 +406,20 @@ func (r *Run) loop() {
 	r.cur = 0
 	r.resume(0)
 	for {
-		m := <-r.in
+		var m msg
+		if r.running {
+			m = <-r.in
+		} else {
+			// nobody holds the processor: every live task is blocked outside the simulator
+			select {
+			case m = <-r.in:
+			case <-time.After(3 * time.Second):
+				r.finish(EndDeadlock, "every live task is blocked in a primitive outside the simulator: "+r.describeBlocked())
+				raceEnable()
+				close(r.done)
+				return
+			}
+		}
 		if r.step(m) {
 			break
 		}
@@ -413,6 +443,8 @@ func (r *Run) resume(t int32) {
 	ts.newborn = 0
 	ts.scheds++
 	r.cur = t
+	r.running = true
+	atomic.StoreInt32(&r.curA, t)
 	setTask(t)
 	r.wake[t] <- ts.reply
 }
@@ -445,8 +477,29 @@ func (r *Run) Steps() int64 { return r.St.Steps }
 
 // step processes one message; it returns true when the run is over.
 func (r *Run) step(m msg) bool {
+	if m.op == opStuck {
+		if !r.running || m.t != r.cur || m.a != r.St.Steps {
+			return false // stale report
+		}
+		// the running task sits in a channel operation / sleep / foreign lock: take the processor away from it
+		r.Unstable = true
+		atomic.StoreInt32(&r.unstableA, 1)
+		r.St.ExternalBlocks++
+		r.tasks[m.t].wait = waitExternal
+		r.running = false
+		atomic.StoreInt32(&r.curA, -1)
+		if next, _ := r.pick(); next >= 0 {
+			r.resume(next)
+		}
+		return false
+	}
 	r.St.Steps++
+	atomic.StoreInt64(&r.stepsA, r.St.Steps)
 	t := m.t
+	late := !(r.running && t == r.cur) // a task that had been blocked outside the simulator reports back
+	if r.tasks[t].wait == waitExternal {
+		r.tasks[t].wait = waitNone
+	}
 	ts := &r.tasks[t]
 	ts.reply = 0
 	if m.op != opChoice && m.op != opHandlerNY {
@@ -524,18 +577,28 @@ func (r *Run) step(m msg) bool {
 		r.lastProg = r.St.Steps
 	case opChoice:
 		ts.reply = int64(r.Sched.Intn(int(m.a)))
-		r.wake[t] <- ts.reply
-		return false
+		if !late {
+			r.wake[t] <- ts.reply
+			return false
+		}
 	case opHandlerNY:
 		ts.reply = r.Handler(r, t, m.a, m.b, m.c, m.d)
-		r.wake[t] <- ts.reply
-		return false
+		if !late {
+			r.wake[t] <- ts.reply
+			return false
+		}
 	case opHandler:
 		ts.reply = r.Handler(r, t, m.a, m.b, m.c, m.d)
 		r.lastProg = r.St.Steps
 	}
 	if r.AfterStep != nil {
 		r.AfterStep(r)
+	}
+	if late && r.running {
+		return false // somebody else holds the processor; t stays parked until it is picked
+	}
+	if !late {
+		r.running = false
 	}
 	if r.St.Steps >= r.Cfg.StepCap {
 		return r.finish(EndHang, fmt.Sprintf("step cap %d reached", r.Cfg.StepCap))
@@ -556,6 +619,10 @@ func (r *Run) step(m msg) bool {
 		// quiescence: nobody can move; open the oldest closed gate somebody waits on
 		g, ok := r.oldestGate(false)
 		if !ok {
+			if r.anyExternal() {
+				atomic.StoreInt32(&r.curA, -1)
+				return false // wait (in real time) for a task blocked outside the simulator to come back
+			}
 			return r.finish(EndDeadlock, r.describeBlocked())
 		}
 		r.gateOpen[g] = true
@@ -594,11 +661,21 @@ func (r *Run) enabled(ts *taskState) bool {
 		o := &r.objs[ts.obj]
 		return !o.w && o.r == 0
 	case waitRLock:
-		return !r.objs[ts.obj].w
+		// Go's RWMutex prefers writers: once a writer has announced itself, new readers queue behind it
+		return !r.objs[ts.obj].w && !r.writerPending(ts.obj)
 	case waitWg:
 		return r.objs[ts.obj].cnt <= 0
 	case waitGate:
 		return r.gateOpen[ts.obj]
+	}
+	return false
+}
+
+func (r *Run) writerPending(obj int64) bool {
+	for i := range r.tasks {
+		if t := &r.tasks[i]; t.wait == waitLock && t.obj == obj {
+			return true
+		}
 	}
 	return false
 }
@@ -698,6 +775,57 @@ chosen:
 	return c, live
 }
 
+//go:norace
+func (r *Run) taskOfGoroutine(id int64, dflt int32) int32 {
+	n := atomic.LoadInt32(&r.nextTask)
+	for i := int32(0); i < n && i < MaxTasks; i++ {
+		if atomic.LoadInt64(&r.goids[i]) == id {
+			return i
+		}
+	}
+	return dflt
+}
+
+func (r *Run) anyExternal() bool {
+	for i := range r.tasks {
+		if r.tasks[i].wait == waitExternal {
+			return true
+		}
+	}
+	return false
+}
+
+// monitor watches (in real time) for a running task that stopped making steps because it is
+// blocked in a primitive the instrumenter does not know (a channel, a sleep, a foreign lock).
+func (r *Run) monitor() {
+	last, same := int64(-1), 0
+	for {
+		select {
+		case <-r.stopMon:
+			return
+		case <-time.After(25 * time.Millisecond):
+		}
+		st := atomic.LoadInt64(&r.stepsA)
+		cur := atomic.LoadInt32(&r.curA)
+		if st != last || cur < 0 {
+			last, same = st, 0
+			continue
+		}
+		same++
+		if same < 2 {
+			continue
+		}
+		if blockedOutside(atomic.LoadInt64(&r.goids[cur])) {
+			select {
+			case r.in <- msg{t: cur, op: opStuck, a: st}:
+			case <-r.stopMon:
+				return
+			}
+			same = 0
+		}
+	}
+}
+
 func (r *Run) describeBlocked() string {
 	s := ""
 	for i := range r.tasks {
@@ -705,7 +833,7 @@ func (r *Run) describeBlocked() string {
 		if ts.wait == waitExited || ts.wait == waitNone {
 			continue
 		}
-		kind := [...]string{"", "lock", "rlock", "wg", "gate"}[ts.wait]
+		kind := [...]string{"", "lock", "rlock", "wg", "gate", "", "external"}[ts.wait]
 		s += fmt.Sprintf("t%d:%s#%d ", i, kind, ts.obj)
 	}
 	return s
